@@ -160,7 +160,7 @@ func (m *Monitor) c05(op Op, ok bool, prev, cur Snap) {
 			m.fail("C05:payload-differs", "queued transfer %d is %+v, supplied %+v", id, t, op)
 		}
 		paidIn := 0 // base denom; a transfer started from the EVM with an ERC-20 token is paid in ERC-20
-		if op.Kind == "SendP" && m.w.toks[op.Token].Kind == "coin" {
+		if op.Kind == "SendP" && (m.w.toks[op.Token].Kind == "coin" || m.w.toks[op.Token].Kind == "erc") {
 			paidIn = 2
 			m.evm[id] = true
 			if d := m.balDelta(prev, cur, op.Sender, op.Token, 0); d == nil || d.Sign() != 0 {
@@ -180,18 +180,27 @@ func (m *Monitor) c05(op Op, ok bool, prev, cur Snap) {
 		if sameTx(p, t, false) {
 			continue
 		}
-		inc := op.Kind == "IncreaseFee" && ok && op.ID == id && sameTx(p, t, true) &&
+		inc := (op.Kind == "IncreaseFee" || op.Kind == "IncreaseFeeP") && ok && op.ID == id && sameTx(p, t, true) &&
 			new(big.Int).Sub(t.Fee, p.Fee).Cmp(big.NewInt(op.Add)) == 0 && ppl[id][0] == "pool" && pl[id][0] == "pool"
 		if !inc {
 			m.fail("C05:payload-changed", "transfer %d changed from %+v to %+v in a %s step", id, p, t, op.Kind)
 		}
 	}
-	if op.Kind == "IncreaseFee" && ok {
+	if (op.Kind == "IncreaseFee" || op.Kind == "IncreaseFeeP") && ok {
 		which := op.Which
+		if op.Kind == "IncreaseFeeP" { // paid in the form it was offered in: FX from the bank, a token as ERC-20
+			which = 0
+			if kd := m.w.toks[op.Token].Kind; kd == "coin" || kd == "erc" {
+				which = 2
+			}
+		}
 		if d := m.balDelta(prev, cur, op.Who, op.Token, which); d == nil || d.Cmp(big.NewInt(-op.Add)) != 0 {
 			m.fail("C05:fee-debit", "fee increase of %d debited the payer by %v", op.Add, d)
 		}
-		for i, k := range m.w.keys { // nobody else pays or receives, apart from the module
+		for i, k := range m.w.keys { // nobody else pays or receives, apart from the modules; the payer only in the offered form
+			if k.Acct == op.Who && k.Token == op.Token && k.Which != which && m.w.toks[op.Token].Kind != "native" && prev.Bals[i].Cmp(cur.Bals[i]) != 0 {
+				m.fail("C05:fee-other-balance", "fee increase changed the payer's balance %v too", k)
+			}
 			if k.Acct >= 0 && !(k.Acct == op.Who && k.Token == op.Token) && prev.Bals[i].Cmp(cur.Bals[i]) != 0 {
 				m.fail("C05:fee-other-balance", "fee increase changed balance %v", k)
 			}
@@ -223,7 +232,7 @@ func (m *Monitor) c05(op Op, ok bool, prev, cur Snap) {
 				if d := m.balDelta(prev, cur, p.Sender, p.Token, 0); d == nil || d.Sign() != 0 {
 					m.fail("C05:refund-origin", "cancel of the EVM-originated transfer %d moved the creator's bank balance by %v", id, d)
 				}
-			} else if m.w.toks[p.Token].Kind == "coin" {
+			} else if m.w.toks[p.Token].Kind == "coin" || m.w.toks[p.Token].Kind == "erc" {
 				if d := m.balDelta(prev, cur, p.Sender, p.Token, 2); d == nil || d.Sign() != 0 {
 					m.fail("C05:refund-origin", "cancel of the message-originated transfer %d moved the creator's ERC-20 balance by %v", id, d)
 				}
@@ -339,6 +348,23 @@ func (m *Monitor) c05(op Op, ok bool, prev, cur Snap) {
 		}
 	}
 	m.refundsExact(op, ok, prev, cur, pc, cc)
+	// a refund that is due must be payable: executing the parked FAILURE result of a live call has to succeed
+	if op.Kind == "ExecResult" && !ok {
+		for _, pd := range prev.Pending {
+			if c, live := pc[pd.Nonce]; pd.E == op.E && live && !pd.Ok {
+				m.fail("C05:bridgecall:refund-cannot-be-paid", "the failure result of bridge call %d (tokens %v) cannot be executed: its refund can never be paid", pd.Nonce, c.Tokens)
+			}
+		}
+	}
+	// ... and an event whose height has reached the time-out of a live call must be observable (the time-out refund runs inside it)
+	if observing(op) && !ok && op.H > 0 && !m.w.stuckBefore {
+		for _, c := range prev.Calls {
+			if c.Timeout <= op.H && !(op.Kind == "BatchExecuted") {
+				m.fail("C05:bridgecall:refund-cannot-be-paid", "the event at height %d cannot be observed: the time-out refund of bridge call %d (timeout %d, tokens %v) fails inside it, which blocks every later event of the module", op.H, c.Nonce, c.Timeout, c.Tokens)
+				break
+			}
+		}
+	}
 	// the erc20 outgoing relation exists exactly for the live transfers that were started from the EVM with an ERC-20 token
 	rel := map[uint64]bool{}
 	for _, id := range cur.Relation {
@@ -395,7 +421,7 @@ func (m *Monitor) refundsExact(op Op, ok bool, prev, cur Snap, pc, cc map[uint64
 			switch m.w.toks[tok].Kind {
 			case "ext":
 				which = 1
-			case "coin":
+			case "coin", "erc":
 				if !fromMsg[n] {
 					which = 2
 				}
